@@ -13,7 +13,7 @@ def comp_case(L):
     idxs = [i for i in range(len(BLOCKS)) if i not in LISTS]
     n = len(idxs)
     def case(idx):
-        mi = idx % len(MODES); idx //= len(MODES)
+        mi = idx // (n ** L); idx %= n ** L          # mode is the slowest axis: a worker (indices w, w+16, ...) meets every mode, so state that leaks between conversions with different options shows up
         seq = []
         for _ in range(L): seq.append(idxs[idx % n]); idx //= n
         seq = seq[::-1]; mname, ext = MODES[mi]
@@ -112,6 +112,7 @@ def axes_of(label): return label.split(",")
 def spelling_case():
     combos = [(k, c, m, crlf) for k in range(len(KINDS)) for c in range(len(CONTEXTS)) for m in range(len(MODES)) for crlf in (0, 1)]
     def case(idx):
+        idx = (idx * 7919) % len(combos) if len(combos) % 7919 else idx      # a fixed permutation: every worker meets every mode
         k, c, m, crlf = combos[idx]; kname, fn, mmd_only = KINDS[k]; mname, ext = MODES[m]
         if mmd_only and mname.startswith("compat"): return (None, [], dict(skipped=1))
         pre, post = CONTEXTS[c]
